@@ -11,7 +11,7 @@ META = {
     "level_text": "Machine-checked proof (Coq 8.16, axiom-free) that the Gallina model of CouldMatch::could_match (zip_tys table of MatchZipper, derived Zip impls for generic args, trait refs, where clauses, domain goals, binders, slices) never rejects a pair that instantiations make syntactically equal, for all terms and all kind-preserving instantiations; tied to /repo on every run by comparing the real could_match with the model on an exhaustive sweep of head-constructor pairs and on mutated random pairs, and by checking on the implementation alone that whenever the real unifier succeeds the real filter said true.",
     "level_note": "Trusted: Coq kernel; hand-written model coq/Ir/CouldMatch.v tied by correspondence on generated pairs (bounded depth); 'unifiable' is formalised as equality under instantiation of bound/inference variables, lifetimes, consts and type-position aliases, which real unification success implies; harness conversion. The filter call sites (impls_for_trait, build_table, solve_from_clauses) are exercised end to end by C01/C04 runs, not modelled here.",
     "design_ref": "DESIGN.md section 4 C18",
-    "bins": ["irbin", "solve"],
+    "bins": ["irbin", "solve", "implsel"],
     "assumptions": ["ADT/fn-def variance tables have at least as many entries as the substitution (true for lowered programs)"],
 }
 
@@ -236,6 +236,7 @@ def run(ctx):
             ctx.violation({"kind": "correspondence", "a": sx.to_sexp(a), "b": sx.to_sexp(b), "implementation": impl,
                            "broken": "correspondence Ir.CouldMatch.could_match_slice = <[GenericArg] as CouldMatch>::could_match"}, no_input=True)
     filter_differential(ctx)
+    impl_selection(ctx)
     if not ok:
         ctx.violation({"kind": "proof", "broken": why}, no_input=True)
 
@@ -249,10 +250,10 @@ def filter_differential(ctx):
     core.build_harness(bins=["solve"])
     r = ctx.rng
     cases, meta = [], []
-    for _ in range(ctx.n(30, 600)):
+    for _ in range(ctx.n(12, 600)):
         prog = pg.gen_program(r)
         text = pg.to_text(prog)
-        goals = [pg.goal_text(g) for g in pg.GoalGen(r, prog).goals(4, 2, 3)]
+        goals = [pg.goal_text(g) for g in pg.GoalGen(r, prog).goals(3, 1, 2)]
         for solver in (pg.SLG, pg.REC):
             cases.append(pg.case(text, goals, solver, "Fresh", [("Cpu", 5)]))
             meta.append((prog.shape, text, goals, solver))
@@ -286,6 +287,214 @@ def filter_differential(ctx):
                                    "what": "the solver's answer changes when the could_match pre-filter is disabled: the filter discards an applicable clause (or otherwise changes answers)"})
     ctx.cov["filter_differential"] = {"cases": len(cases), "differences": ndiff, "inconclusive": ninc}
     ctx.sample({"family": "filter-on-vs-off", "program": meta[0][1][:400], "goals": meta[0][2][:3], "solver": meta[0][3]})
+
+
+# ---------------------------------------------------------------------------------------------
+# call site Program::impls_for_trait: every impl whose header really unifies must be selected
+# ---------------------------------------------------------------------------------------------
+
+SCALARS = ["u8", "u32", "usize", "i32", "i64", "f32", "f64", "bool", "char"]
+
+
+def t_text(t):
+    k = t[0]
+    if k == "scalar":
+        return t[1]
+    if k == "adt":
+        return t[1] + ("<" + ", ".join(t_text(x) for x in t[2]) + ">" if t[2] else "")
+    if k == "ref":
+        return "&" + t[1] + (" mut " if t[2] else " ") + t_text(t[3])
+    if k == "raw":
+        return "*" + ("mut " if t[1] else "const ") + t_text(t[2])
+    if k == "slice":
+        return "[" + t_text(t[1]) + "]"
+    if k == "array":
+        return "[" + t_text(t[1]) + "; " + str(t[2]) + "]"
+    if k == "tuple":
+        return "(" + ", ".join(t_text(x) for x in t[1]) + ("," if len(t[1]) == 1 else "") + ")"
+    if k == "fn":
+        return "fn(" + ", ".join(t_text(x) for x in t[1]) + ") -> " + t_text(t[2])
+    if k == "dyn":
+        return "dyn Bar + " + t[1]
+    if k == "proj":
+        return "<" + t_text(t[1]) + " as Id>::This"
+    if k == "var":
+        return t[1]
+    if k == "str":
+        return "str"
+    if k == "never":
+        return "!"
+    raise ValueError(t)
+
+
+def t_gen(r, d, tvars, lts):
+    leaf = [("scalar", r.choice(SCALARS)), ("adt", "S0", []), ("str",), ("never",)]
+    if tvars:
+        leaf += [("var", r.choice(tvars))] * 3
+    if d <= 0 or r.random() < 0.3:
+        return r.choice(leaf)
+    k = r.randrange(11)
+    sub = lambda: t_gen(r, d - 1, tvars, lts)
+    if k == 0:
+        return ("adt", "S1", [sub()])
+    if k == 1:
+        return ("adt", "S2", [sub(), sub()])
+    if k == 2:
+        return ("ref", r.choice(lts), r.random() < 0.3, sub())
+    if k == 3:
+        return ("raw", r.random() < 0.5, sub())
+    if k == 4:
+        return ("slice", sub())
+    if k == 5:
+        return ("array", sub(), r.randrange(3))
+    if k == 6:
+        return ("tuple", [sub() for _ in range(r.randrange(3))])
+    if k == 7:
+        return ("fn", [sub() for _ in range(r.randrange(1, 3))], sub())
+    if k == 8:
+        return ("dyn", r.choice(lts))
+    if k == 9:
+        return ("proj", sub())
+    return r.choice(leaf)
+
+
+def t_subst(t, m, lm):
+    k = t[0]
+    if k == "var":
+        return m.get(t[1], t)
+    if k == "adt":
+        return ("adt", t[1], [t_subst(x, m, lm) for x in t[2]])
+    if k == "ref":
+        return ("ref", lm.get(t[1], t[1]), t[2], t_subst(t[3], m, lm))
+    if k == "raw":
+        return ("raw", t[1], t_subst(t[2], m, lm))
+    if k == "slice":
+        return ("slice", t_subst(t[1], m, lm))
+    if k == "array":
+        return ("array", t_subst(t[1], m, lm), t[2])
+    if k == "tuple":
+        return ("tuple", [t_subst(x, m, lm) for x in t[1]])
+    if k == "fn":
+        return ("fn", [t_subst(x, m, lm) for x in t[1]], t_subst(t[2], m, lm))
+    if k == "dyn":
+        return ("dyn", lm.get(t[1], t[1]))
+    if k == "proj":
+        return ("proj", t_subst(t[1], m, lm))
+    return t
+
+
+def t_mutate(r, t, gvars):
+    """Replace one random subterm by a goal variable or another small type."""
+    subs = []
+
+    def walk(x, path):
+        subs.append(path)
+        k = x[0]
+        kids = {"adt": x[2] if k == "adt" else None, "tuple": x[1] if k == "tuple" else None}.get(k)
+        if k in ("adt", "tuple"):
+            for i, c in enumerate(kids):
+                walk(c, path + (i,))
+        elif k in ("slice", "proj", "array"):
+            walk(x[1], path + (0,))
+        elif k == "raw":
+            walk(x[2], path + (0,))
+        elif k == "ref":
+            walk(x[3], path + (0,))
+        elif k == "fn":
+            for i, c in enumerate(x[1]):
+                walk(c, path + (i,))
+            walk(x[2], path + (len(x[1]),))
+    walk(t, ())
+    target = r.choice(subs)
+    new = r.choice([("var", r.choice(gvars)), ("scalar", r.choice(SCALARS)), ("adt", "S0", [])])
+
+    def rebuild(x, path):
+        if not path:
+            return new
+        i, rest = path[0], path[1:]
+        k = x[0]
+        if k == "adt":
+            cs = list(x[2]); cs[i] = rebuild(cs[i], rest); return ("adt", x[1], cs)
+        if k == "tuple":
+            cs = list(x[1]); cs[i] = rebuild(cs[i], rest); return ("tuple", cs)
+        if k == "slice":
+            return ("slice", rebuild(x[1], rest))
+        if k == "proj":
+            return ("proj", rebuild(x[1], rest))
+        if k == "array":
+            return ("array", rebuild(x[1], rest), x[2])
+        if k == "raw":
+            return ("raw", x[1], rebuild(x[2], rest))
+        if k == "ref":
+            return ("ref", x[1], x[2], rebuild(x[3], rest))
+        if k == "fn":
+            if i < len(x[1]):
+                cs = list(x[1]); cs[i] = rebuild(cs[i], rest); return ("fn", cs, x[2])
+            return ("fn", x[1], rebuild(x[2], rest))
+        return x
+    return rebuild(t, target)
+
+
+PRELUDE = ("struct S0 {} struct S1<T> {} struct S2<T, U> {} trait Bar {} trait Id { type This; } "
+           "impl<T> Id for T { type This = T; } trait Foo<P> {} ")
+GOAL_TVARS = ["T0", "T1", "N", "F", "A"]
+
+
+def impl_selection(ctx):
+    """`Program::impls_for_trait` (and therefore the clause selection built on it) must return every
+    impl whose header the real unifier can unify with the goal's trait reference: impl headers with
+    type/lifetime parameters, references, raw pointers, arrays, tuples, fn pointers, dyn, projections,
+    against goals with general / integer / float unknowns, placeholders and lifetimes."""
+    core.build_harness(bins=["implsel"])
+    r = ctx.rng
+    cases, meta = [], []
+    for _ in range(ctx.n(60, 1500)):
+        impls = []
+        for _ in range(r.randint(3, 6)):
+            hdr = (t_gen(r, 2, ["T", "U"], ["'a", "'static"]), t_gen(r, 2, ["T", "U"], ["'a", "'static"]))
+            impls.append(hdr)
+        text = PRELUDE + " ".join("impl<'a, T, U> Foo<%s> for %s {}" % (t_text(p), t_text(s)) for s, p in impls)
+        goals = []
+        for _ in range(6):
+            s, p = r.choice(impls)
+            m = {v: t_gen(r, 1, GOAL_TVARS, ["'b", "'x", "'static"]) for v in ("T", "U")}
+            lm = {"'a": r.choice(["'b", "'x", "'static"])}
+            gs, gp = t_subst(s, m, lm), t_subst(p, m, lm)
+            for _ in range(r.choice([0, 0, 1, 2])):
+                if r.random() < 0.5:
+                    gs = t_mutate(r, gs, GOAL_TVARS)
+                else:
+                    gp = t_mutate(r, gp, GOAL_TVARS)
+            goals.append("exists<T0, T1, int N, float F, 'x> { forall<'b, A> { %s: Foo<%s> } }" % (t_text(gs), t_text(gp)))
+        cases.append(("Case", sx.Str(text), [sx.Str(g) for g in goals]))
+        meta.append((text, goals))
+    outs = core.run_harness("implsel", cases, timeout=600)
+    nviol = nunif = ngoal = nerr = 0
+    for (text, goals), o in zip(meta, outs):
+        v = sx.parse_sexp(o)
+        if sx.head(v) != "Result":
+            nerr += 1
+            if sx.head(v) == "Panic":
+                ctx.violation({"kind": "implementation-failure", "program": text, "output": o[:500], "what": "impl selection panicked"})
+            continue
+        for gt, gr in zip(goals, v[1]):
+            if sx.head(gr) != "G":
+                nerr += 1
+                continue
+            returned, unif = set(gr[1]), set(gr[2])
+            ngoal += 1
+            nunif += len(unif)
+            ctx.count("impls_for_trait", (text, gt), nontrivial=bool(unif))
+            missing = sorted(unif - returned)
+            if missing and nviol < 3:
+                nviol += 1
+                ctx.violation({"kind": "property", "program": text, "goal": gt, "returned_impls": sorted(returned), "unifiable_impls": sorted(unif),
+                               "discarded_applicable_impls": missing,
+                               "what": "Program::impls_for_trait does not return an impl whose header the real unifier unifies with the goal's trait reference"})
+    ctx.cov["impl_selection"] = {"programs": len(cases), "goals": ngoal, "unifiable_impl_goal_pairs": nunif, "errors": nerr}
+    if ngoal == 0 or nunif == 0:
+        raise core.CheckFailure("impl selection stage produced no usable cases (%d errors)" % nerr)
+    ctx.sample({"family": "impls_for_trait", "program": meta[0][0][:500], "goal": meta[0][1][0]})
 
 
 def search_unifiable(ctx, g, a, b):
